@@ -7,6 +7,7 @@ with that chunk — no matter how the writer's steps are interleaved with it (it
 report EBADMSG/ENOBUFS, or return anything else).  Safety form; that the call does return is
 obvious from the code (the reader's steps never wait: timeout 0) and is exercised by the
 differential runs, but "the schedule gives the reader enough steps" is not stated as a theorem.
+The same for peek + copy + reclaim.
 -/
 import QbVerif.Props.C01
 import QbVerif.Lemmas.RingConcProg
@@ -46,5 +47,40 @@ theorem spsc_next_read_returns_next_chunk {rb : Rb} (hs : Start rb) (wprog : Lis
     rcases run_pending hcap hpend sched' with ⟨hk, _⟩ | hdone
     · exact .inl hk
     · exact .inr hdone
+
+/-- **The next peek + reclaim returns the next chunk.**  The same for a `qb_rb_chunk_peek`,
+    copy-out (in one piece or word-wise), `qb_rb_chunk_reclaim` call that has not yet found the
+    ring empty: its only way to return is with the oldest unread chunk, intact — also when the
+    writer wraps around and refills the ring while the chunk is being copied out word by word. -/
+theorem spsc_next_peek_returns_next_chunk {rb : Rb} (hs : Start rb) (wprog : List WOp) (rprog : List ROp)
+    (sched : List Tid) (f : Bool) (rest : List ROp) (d : List Nat)
+    (hp : (run (init rb wprog rprog) sched).rprog = .pr f :: rest)
+    (hnb : (run (init rb wprog rprog) sched).rpc ≠ .pkBad)
+    (hd : (okWrites wprog (run (init rb wprog rprog) sched).wOuts ++ inflightW (run (init rb wprog rprog) sched))[
+            (okReads (run (init rb wprog rprog) sched).rOuts).length]? = some d)
+    (sched' : List Tid) :
+    (run (init rb wprog rprog) (sched ++ sched')).rOuts.length = (run (init rb wprog rprog) sched).rOuts.length ∨
+    (run (init rb wprog rprog) (sched ++ sched')).rOuts[(run (init rb wprog rprog) sched).rOuts.length]? =
+      some (.data d) := by
+  obtain ⟨q, hi, hr, hw⟩ := reachable hs wprog rprog sched
+  rw [run_append]
+  generalize run (init rb wprog rprog) sched = c at *
+  rw [← hw, ← hr, hi.hq, List.getElem?_append_right (Nat.le_refl _), Nat.sub_self] at hd
+  cases q with
+  | nil => cases hd
+  | cons d' ds =>
+    have : d' = d := by simpa using hd
+    subst this
+    have hpend : PendingP c.rOuts.length f rest d' c := .inl ⟨rfl, hp, hnb, hr, ds, hi⟩
+    rcases run_pendingP hpend sched' with ⟨hk, _⟩ | hdone
+    · exact .inl hk
+    · exact .inr hdone
+
+/-- non-vacuity of the two theorems: in the first example run of Props/C01Witness.lean, after the
+    writer's first 16 steps the reader is idle with `pr true` next and the first chunk is unread -/
+example : (run (init (Rb.open 43 4 false true) [⟨true, [1, 2, 3, 4, 5, 6]⟩] [.pr true]) (List.replicate 16 .w)).rprog = [.pr true] ∧
+    (okWrites [⟨true, [1, 2, 3, 4, 5, 6]⟩]
+      (run (init (Rb.open 43 4 false true) [⟨true, [1, 2, 3, 4, 5, 6]⟩] [.pr true]) (List.replicate 16 .w)).wOuts)[0]? =
+      some [1, 2, 3, 4, 5, 6] := by decide +kernel
 
 end QbVerif.Props.C01
